@@ -218,3 +218,9 @@ def r7(c):
         sv = q.sem(l, f.get('timeout_counter'))
         okf = sv.kind == 'call' and sv.cs is tn
     c.ob('loop/field', okf, 'and that counter is the loop\'s timeout_counter', '', loc_of(l))
+
+
+@rule('C12', 'R12.8', 'a reply that arrives after its deadline leaves the connection usable: while idle it is dropped without ending the session (C11/R11.3)')
+def r8(c):
+    from rules import c11
+    c11.r3(c)
